@@ -93,11 +93,20 @@ def _worker(args):
         for c in ex.cex:
             j = c.to_json()
             j["case"] = case.name
-            try:
-                with redirect_stdout(buf):
-                    ok, info = case.replay(c)
-            except Exception as e:
-                ok, info = False, f"replay raised {type(e).__name__}: {e}\n{traceback.format_exc()[-600:]}"
+            ok, info = False, ""
+            from symx.core import Cex as _Cex
+
+            for vals in [c.values] + list(getattr(c, "alternatives", [])):
+                try:
+                    with redirect_stdout(buf):
+                        ok, info = case.replay(_Cex(c.label, vals, c.detail, c.path, c.kind))
+                except Exception as e:
+                    ok, info = False, f"replay raised {type(e).__name__}: {e}\n{traceback.format_exc()[-600:]}"
+                if ok:
+                    c.values = vals
+                    j = c.to_json()
+                    j["case"] = case.name
+                    break
             j["reproduced"] = bool(ok)
             j["replay_info"] = str(info)[:1500]
             res["cex"].append(j)
